@@ -93,22 +93,34 @@ pub fn thread_count() -> usize {
 }
 
 fn stacks() -> String {
+    // gdb stops every thread of this process, including the one that would drain a pipe: its
+    // output therefore goes to a file, never to a pipe
     let pid = std::process::id();
-    let out = std::process::Command::new("timeout")
-        .args(["20", "gdb", "-p", &pid.to_string(), "-batch", "-ex", "set pagination off", "-ex", "thread apply all bt 14"])
-        .output();
-    match out {
-        Ok(o) => {
-            let s = String::from_utf8_lossy(&o.stdout);
-            let keep: Vec<&str> = s.lines().filter(|l| l.starts_with("Thread ") || l.starts_with('#')).collect();
-            let mut t = keep.join("\n");
-            if t.len() > 12_000 {
-                t.truncate(12_000);
-            }
-            t
-        }
-        Err(e) => format!("gdb unavailable: {e}"),
+    let path = std::env::temp_dir().join(format!("vcheck-stacks-{pid}.txt"));
+    let file = match std::fs::File::create(&path) {
+        Ok(f) => f,
+        Err(e) => return format!("cannot create {path:?}: {e}"),
+    };
+    let err = file.try_clone().ok();
+    let mut cmd = std::process::Command::new("timeout");
+    cmd.args(["-k", "5", "40", "gdb", "-p", &pid.to_string(), "-batch", "-ex", "set pagination off", "-ex", "thread apply all bt 14", "-ex", "detach", "-ex", "quit"])
+        .stdin(std::process::Stdio::null())
+        .stdout(file);
+    if let Some(e) = err {
+        cmd.stderr(e);
     }
+    let status = cmd.status();
+    let s = std::fs::read_to_string(&path).unwrap_or_default();
+    let _ = std::fs::remove_file(&path);
+    let keep: Vec<&str> = s.lines().filter(|l| l.starts_with("Thread ") || l.starts_with('#')).collect();
+    let mut t = keep.join("\n");
+    if t.len() > 12_000 {
+        t.truncate(12_000);
+    }
+    if t.is_empty() {
+        t = format!("no stacks (gdb status {status:?})");
+    }
+    t
 }
 
 /// Threads that wake up on their own without doing work for anybody (pure reactors).
